@@ -36,14 +36,26 @@ def plans_core(prop, tier, seed):
                                          MaxE=4, MaxOps=6 if q else 7),
                       max_scripts=25000 if q else 400000))
     # replicas rebuilt from another replica's entries and heads (NewLog with options), then both sides grow
-    plans.append(dict(name="exhFork", consts=base_consts(NR=3, Writer0=[1, 2, 1], MaxE=5 if q else 6, MaxOps=6 if q else 7,
-                                                        ForkOn={2, 3}),
+    # (both ways of handing over the entries: a copy, or the source's own entry index; the replicas themselves are opened
+    #  from one LogOptions value)
+    plans.append(dict(name="exhFork", shared_options=True,
+                      consts=base_consts(NR=3, Writer0=[1, 2, 1], MaxE=5 if q else 6, MaxOps=6 if q else 7,
+                                         ForkOn={2, 3}, ForkModes={"copy", "live"}),
                       max_scripts=25000 if q else 300000))
     # replicas read back from the store by each loader (from entries, a JSON snapshot, an entry hash, a manifest)
     plans.append(dict(name="exhLoad", consts=base_consts(NR=3, Writer0=[1, 2, 1], MaxE=4 if q else 5, MaxOps=5 if q else 6,
                                                         Fn="HASH" if seed % 2 else "LWW", ForkOn={3},
                                                         LoadKinds={"entry", "json", "hash", "mh"}),
                       max_scripts=25000 if q else 300000))
+    if prop == "C02":
+        # logs holding entries of two ids (a log with its own id rebuilt on another log's entries, twice over): a replica that
+        # merges from them holds a closed set of entries of its own id, and its heads are the maximal ones
+        plans.append(dict(name="crossfork2", consts=base_consts(NR=3, Writer0=[1, 2, 1], Lid=["X", "Y", "X"], MaxE=4, MaxOps=6 if q else 7,
+                                                               ForkOn={1, 2}, CrossFork=True),
+                          max_scripts=30000 if q else 300000))
+        # sources cut by a bounded merge, then merged from without bound
+        plans.append(dict(name="fromBounded", consts=base_consts(NR=3, Writer0=[1, 2, 3], MaxE=4, MaxOps=5 if q else 6, Sizes={1, 2}),
+                          max_scripts=20000 if q else 300000))
     if prop == "C05":
         # under the link-sealing codec, with replicas read back from the store (their decoded entries carry no sealed
         # form in memory): verification during a merge must not touch the entry objects another log holds
@@ -63,7 +75,8 @@ def plans_c04(prop, tier, seed):
     return [
         dict(name="exhPC", consts=base_consts(NR=2, Writer0=[1, 2], Lid=["X", "X"], Denied=[set(), set()],
                                               MaxE=5 if q else 6, MaxOps=6 if q else 8, PCs={1, 2, 3, 4, 8})),
-        dict(name="exhSI", consts=base_consts(MaxE=4, MaxOps=5 if q else 6, PCs={1, 2}, Writers={1, 2, 3})),
+        dict(name="exhSI", consts=base_consts(MaxE=4, MaxOps=5 if q else 6, PCs={1, 2}, Writers={1, 2, 3}),
+             max_scripts=60000 if q else None),
         # appends to logs read back from the store (their clock starts behind their heads), under every comparator
         dict(name="exhLoadFWW", consts=base_consts(NR=3, Writer0=[1, 2, 3], MaxE=5, MaxOps=6 if q else 7, Fn="FWW", ForkOn={3},
                                                    LoadKinds={"entry", "mh"}),
@@ -71,6 +84,10 @@ def plans_c04(prop, tier, seed):
         dict(name="exhLoadHASH", consts=base_consts(NR=3, Writer0=[1, 2, 3], MaxE=5, MaxOps=6, Fn="HASH", HashPerm="rev", ForkOn={3},
                                                     LoadKinds={"json", "hash"}),
              max_scripts=25000 if q else 300000),
+        # logs whose clocks start just below 2^53 (LogOptions.Clock): the same histories, with times that a float64 cannot all
+        # represent - a translation of the small-clock runs, traces are written relative to the base
+        dict(name="exhBig", clock_base=2 ** 53 - 2,
+             consts=base_consts(NR=3, Writer0=[1, 2, 1], MaxE=4, MaxOps=5 if q else 6, PCs={1, 2}, Writers={2})),
         # a fork of nine branches, one of them long (more heads than the pointer count, the newest head's ancestors
         # sorting above the other heads), then one append with each pointer count
         dict(name="wideFork", mode="all", consts=base_consts(NR=9, Writer0=[1, 2, 3, 4, 2, 3, 4, 2, 3], Lid=["X"] * 9,
@@ -279,6 +296,25 @@ def run_c04(prop, tier, seed, report, scratch):
     apalache_stage(report, scratch, tier, "ClockInd", {"N": n, "NR": nr, "MaxT": mt}, consequence="C04_NextAppendDominates")
 
 
+def run_c09(prop, tier, seed, report, scratch):
+    """C09 under the default ordering, and once more with logs configured with another ordering (LogOptions.SortFn given to
+    the loaders the way the log was configured, FetchOptions.SortFn left unset): the reloaded views must still be equal."""
+    fam_f.run_family_f(prop, tier, seed, report, scratch)
+    cov = dict(report.coverage)
+    sub = type(report)(prop, tier, seed, report.level)
+    sub.known = report.known
+    os.makedirs(os.path.join(scratch, "fww"), exist_ok=True)
+    fam_f.run_family_f(prop, tier, seed, sub, os.path.join(scratch, "fww"), fn="FWW")
+    for desc, payload in sub.violations:
+        desc = dict(desc, ordering="FWW")
+        report.add_violation(desc, payload)
+    for d in sub.drift:
+        report.add_drift(d + " [FWW]")
+    for k in ("states", "transitions", "traces_validated_against_impl", "records_validated", "instances"):
+        report.coverage[k] = (cov.get(k) or 0) + (sub.coverage.get(k) or 0)
+    report.coverage["orderings"] = ["LWW", "FWW"]
+
+
 CHECKS = {
     "C01": dict(level="model_checking", run=run_l(plans_core)),
     "C02": dict(level="model_checking", run=run_c02),
@@ -289,7 +325,7 @@ CHECKS = {
     "C07": dict(level="exploration", run=fam_d.run_family_d),
     "C08": dict(level="exploration", run=fam_d.run_family_d),
     "C12": dict(level="exploration", run=fam_d.run_family_d),
-    "C09": dict(level="model_checking", run=fam_f.run_family_f),
+    "C09": dict(level="model_checking", run=run_c09),
     "C10": dict(level="model_checking", run=fam_f.run_family_f),
     "C11": dict(level="model_checking", run=fam_f.run_family_f),
     "C13": dict(level="model_checking", run=fam_k.run_family_k),
